@@ -75,6 +75,8 @@ class PDFParser(PSStackParser[Union[PSKeyword, PDFStream, PDFObjRef, None]]):
 
         elif token is self.KEYWORD_STREAM:
             # stream object
+            if not self.curstack:
+                raise PDFSyntaxError("stream keyword without a dictionary")
             ((_, dic),) = self.pop(1)
             dic = dict_value(dic)
             objlen = 0
@@ -148,11 +150,12 @@ class PDFStreamParser(PDFParser):
     def do_keyword(self, pos: int, token: PSKeyword) -> None:
         if token is self.KEYWORD_R:
             # reference to indirect object
-            (_, _object_id), _ = self.pop(2)
-            object_id = safe_int(_object_id)
-            if object_id is not None:
-                obj = PDFObjRef(self.doc, object_id)
-                self.push((pos, obj))
+            if len(self.curstack) >= 2:
+                (_, _object_id), _ = self.pop(2)
+                object_id = safe_int(_object_id)
+                if object_id is not None:
+                    obj = PDFObjRef(self.doc, object_id)
+                    self.push((pos, obj))
             return
 
         elif token is self.KEYWORD_NULL:
